@@ -217,6 +217,7 @@ GRAPH = ["?", "<", ">", "%", ":", "/", "\n", "\\", "a", "=", "(", "'", '"', "!",
 # characters that str.splitlines() / universal newlines treat as line ends but the tokenizer does not, and CR
 LINEISH = ["a", " ", "\n", "\r", "\f", "\v", "\x1c", "\u0085", "\u2028"]
 # escapes spelled with the trigraph backslash, next to tabs and quotes
+ESCPIECES = ['"', "'", "??/", "\\", "\t", "a", " ", "\n"]   # trigraph backslash as ONE symbol: escapes and splices at depth
 TRIESC = ['"', "'", "?", "/", "\t", "a", "\\"]
 
 
@@ -283,6 +284,8 @@ def standard_streams(tier, rnd, focus):
     if focus in ("c11", "c05"):
         st.append(("numeric alphabet (17 symbols), all strings", exhaustive(NUMERIC, 4 if q else 5), True))
     st.append(("line-break look-alikes (CR, FF, VT, U+001C, U+0085, U+2028; 9 symbols), all strings", exhaustive(LINEISH, 4 if q else 5), True))
+    st.append(("escapes and splices spelled with backslash or ??/ next to tabs, quotes and line ends (8 pieces), all sequences",
+               exhaustive(ESCPIECES, 5 if q else 6), True))
     st.append(("trigraph-backslash escapes with tabs and quotes (7 symbols), all strings", exhaustive(TRIESC, 6 if q else 7), True))
     st.append(("structured lexeme sequences", structured(rnd, 1500 if q else 40000), False))
     st.append(("malformed: truncations, long runs", malformed(rnd, 400 if q else 8000), False))
